@@ -4,7 +4,7 @@ from .pools import pick, subset, hexstr
 
 TI_NAMES = ["Fedora", "Red Hat Enterprise Linux", "Spacewalk", "Ünïcode Linux", "CentOS Stream", "neutral os",
             "Storage Server ;EUS", "hash #tag os", "eq=colon: os"]
-TI_SHORTS = ["F", "RHEL", "sw", "Fedora", "x1"]
+TI_SHORTS = ["F", "RHEL", "sw", "Fedora", "x1", ""]
 TI_VERSIONS = ["20", "7.0", "7.1", "10.0.1", "Rawhide", "eln"]
 TOP_IDS = ["Server", "Client", "Workstation", "BaseOS", "AppStream", "Fedora", "Tools", "RT", "WorkStation", "server"]      # two of them are child ids as well, two differ from another one only in letter case
 CHILD_IDS = ["optional", "HighAvailability", "Tools", "RT", "SAP", "debug"]
@@ -21,7 +21,7 @@ def gen_content(rng, max_top=3, max_children=3, src=None, float_ts=False):
         # a release whose name already ends with its version ("openSUSE Leap 15.1", version "15.1")
         rel["name"] = "%s %s" % (rel["name"], rel["version"])
     bp = {"name": pick(rng, TI_NAMES), "short": pick(rng, TI_SHORTS), "version": pick(rng, ["7", "20", "Rawhide", "8.1"])}
-    arch = "src" if (src if src is not None else rng.random() < 0.2) else pick(rng, pools.ARCHES)
+    arch = "src" if (src if src is not None else rng.random() < 0.2) else pick(rng, pools.ARCHES + ["nosrc", "noarch"])
     ts = pools.anyint(rng, [1, 123456, 1410855216, 2 ** 33 + 1, -1, -1, -86400], big=0.08)
     if float_ts:
         ts = ts + rng.choice([0.0, 0.25, 0.5, 0.999])
@@ -75,10 +75,17 @@ def gen_content(rng, max_top=3, max_children=3, src=None, float_ts=False):
         K["media"] = {"discnum": rng.randint(1, tot), "totaldiscs": tot}
     for _ in range(rng.randint(0, 4)):
         t = pick(rng, ["md5", "sha1", "sha256", "sha512"])
-        K["checksums"]["%s/%s" % (pick(rng, ["images", "repodata", "LiveOS", "Images/Sub", "x86_64/os/images", "tree/os", ".hidden", "-opt", "+plus", "~tilde", "0"]), pick(rng, IMAGE_NAMES + ["repomd.xml"]))] = [t, hexstr(rng, {"md5": 32, "sha1": 40, "sha256": 64, "sha512": 128}[t])]
+        val = hexstr(rng, {"md5": 32, "sha1": 40, "sha256": 64, "sha512": 128}[t])
+        if rng.random() < 0.12:
+            val = pick(rng, [val[:16], val + "00", "0", "deadbeef", val.upper()])       # any text is a value: abbreviated, placeholder, upper case
+        K["checksums"]["%s/%s" % (pick(rng, ["images", "repodata", "LiveOS", "Images/Sub", "x86_64/os/images", "tree/os", ".hidden", "-opt", "+plus", "~tilde", "0"]), pick(rng, IMAGE_NAMES + ["repomd.xml"]))] = [t, val]
     # entries planted directly in the public table (not through Checksums.add, which normalises): relative but
     # not in normal form - legal option names, must come back verbatim
     K["raw_checksums"] = {}
+    if K["checksums"] and rng.random() < 0.2:
+        # two distinct legal option names that spell the SAME file (the normal form is in the table already)
+        k0 = pick(rng, sorted(K["checksums"]))
+        K["raw_checksums"][pick(rng, ["./%s", "%s/.", "x/../%s"]) % k0 if rng.random() < 0.7 else k0.replace("/", "//", 1)] = ["sha256", hexstr(rng, 64)]
     if rng.random() < 0.3:
         for _ in range(rng.randint(1, 2)):
             key = pick(rng, ["./repodata/repomd.xml", "a//b.img", "x/../y.img", "dir/sub/", "./images/./pxeboot/vmlinuz"])
@@ -219,6 +226,10 @@ def poison_sites(K):
     for platform, table in K["images"].items():
         for name, path in table.items():
             sites.append({"kind": "image", "platform": platform, "name": name, "bad": "/" + path, "good": path})
+    for platform in sorted(K["images"]):
+        for badname in (1, 1.5, None, True):
+            # an image NAME that is not text, next to the ordinary ones
+            sites.append({"kind": "image-name", "platform": platform, "name": badname})
     sites.append({"kind": "image-unref", "platform": "nowhere"})
     for p in PLATFORMS + pools.ARCHES[:3]:
         # ...also a platform that OTHER trees of the same process list, but this one does not
@@ -257,6 +268,9 @@ def poison_ops(site, slot=0):
     elif k == "image":
         p = {"op": "ti_image", "platform": site["platform"], "name": site["name"], "path": site["bad"]}
         h = {"op": "ti_image", "platform": site["platform"], "name": site["name"], "path": site["good"]}
+    elif k == "image-name":
+        p = {"op": "ti_image", "platform": site["platform"], "name": site["name"], "path": "images/odd.img"}
+        h = {"op": "ti_image_name_del", "platform": site["platform"], "name": site["name"]}
     elif k == "image-unref":
         p = {"op": "ti_image", "platform": site["platform"], "name": "boot.iso", "path": "images/boot.iso"}
         h = {"op": "ti_image_del", "platform": site["platform"]}
